@@ -410,7 +410,7 @@ def check_regression_subtree(ctx):
 
 
 def run(ctx, args):
-    ctx.regen(["GenWs.v", "GenNames.v", "GenNs.v"])
+    ctx.regen(["GenWs.v", "GenNames.v", "GenNs.v", "GenValidators.v", "GenNsValidators.v"])
     ctx.build("Props/C13.vo")
     if args.replay:
         with open(args.replay) as f:
@@ -421,6 +421,7 @@ def run(ctx, args):
         return ctx.finish("replay of " + args.replay, replay_open=replay_open)
     quick = ctx.tier == "quick"
     check_regression_subtree(ctx)
+    nsgen.check_validators(ctx, REQ)
     cases = fixed_cases()
     n = 700 if quick else 12000
     for i in range(n):
